@@ -42,6 +42,10 @@ type LStr string
 
 type Größe struct{ V int }
 
+type Ärger int
+
+type Ünï struct{ W string }
+
 type Rune struct{ R rune }
 
 type Byte struct{ B byte }
@@ -389,6 +393,8 @@ def catalogue(g):
     for nm in NONASCII:
         add("ident.non-ascii." + nm, ["P(%s int) (%s2 string, err error)" % (nm, nm)])
     add("ident.non-ascii-type", ["P(v Größe) Größe", "Q(vs ...Größe) []Größe"])
+    # unnamed parameters: the variable name is derived from the type name by lower-casing its first letter, which may be a multi-byte one
+    add("ident.non-ascii-type-unnamed", ["P(Ärger, Größe) Ünï", "Q(*Ünï, []Ärger, ...Ärger) (Ärger, error)", "R(_ Ünï, _ map[string]Ärger)"])
     add("ident.long", ["P(%s int) (%s string)" % ("p" + "x" * 120, "r" + "y" * 120)])
     add("ident.iface-name-underscore", "M(x int) error", name="Under_score_%d" % g.n)
     add("ident.iface-name-non-ascii", "M(x int) error", name="Größe%dIface" % g.n)
